@@ -11,6 +11,7 @@ import (
 	"errors"
 	"fmt"
 	"io"
+	"reflect"
 	"sort"
 	"strings"
 	"time"
@@ -249,7 +250,7 @@ type VerifH3SRig struct {
 // >= 0 = body with that Content-Length.  bodyKind: 0 requestBody (server side), 1 response
 // body (client side).  The trailer callback does what decodeTrailers does before QPACK:
 // size check against maxHdr, io.ReadFull of the block.
-func VerifH3SNewRig(s *VerifH3SScript, mode int64, bodyKind int, maxHdr uint64) *VerifH3SRig {
+func VerifH3SNewRig(s *VerifH3SScript, mode int64, bodyKind int, noContent bool, maxHdr uint64) *VerifH3SRig {
 	r := &VerifH3SRig{Script: s, qc: quic.VerifH3SStubConn()}
 	rc := newRawConn(r.qc, false, nil, nil, nil, nil)
 	r.str = newStream(s, rc, nil, func(rd io.Reader, hf *headersFrame) error {
@@ -267,12 +268,29 @@ func VerifH3SNewRig(s *VerifH3SScript, mode int64, bodyKind int, maxHdr uint64) 
 	case mode == -2:
 		r.rd = r.str
 	case bodyKind == 0:
-		r.rd = newRequestBody(r.str, mode, context.Background(), nil, nil)
+		rb := newRequestBody(r.str, mode, context.Background(), nil, nil)
+		verifH3SSetNoContent(&rb.body, noContent)
+		r.rd = rb
 	default:
 		r.reqDone = make(chan struct{})
-		r.rd = newResponseBody(r.str, mode, r.reqDone)
+		rb := newResponseBody(r.str, mode, r.reqDone)
+		verifH3SSetNoContent(&rb.body, noContent)
+		r.rd = rb
 	}
 	return r
+}
+
+// verifH3SSetNoContent marks the body as one of a message that never carries content (response to
+// HEAD, 1xx / 204 / 304), as RequestStream.ReadResponse does.  Reflection keeps the harness
+// compiling against a tree that does not have the field (the unrepaired code).
+func verifH3SSetNoContent(b *body, v bool) {
+	if !v {
+		return
+	}
+	f := reflect.ValueOf(b).Elem().FieldByName("noContentExpected")
+	if f.IsValid() {
+		reflect.NewAt(f.Type(), f.Addr().UnsafePointer()).Elem().SetBool(true)
+	}
 }
 
 func (r *VerifH3SRig) Read(n int) ([]byte, int64, int64) {
